@@ -17,7 +17,8 @@
    table [scm_of] (checked against the implementation for all five values on every run).
    ValueAtQuantile's rank computation uses Coq's primitive binary64 floats. *)
 From FunV Require Import Base.Tac.
-From Coq Require Import Floats.
+From Coq Require Import PrimFloat SpecFloat FloatOps.
+From Coq Require Uint63.
 Local Open Scope Z_scope.
 
 (* ------------------------------------------------------------------ machine integers *)
